@@ -17,6 +17,10 @@ type Rule struct {
 	Props []string // properties served
 	// Thorough marks rules that only run in the thorough tier.
 	Thorough bool
+	// Wide marks rules that tag each obligation with the properties of the construct it is about (computed from the
+	// function's package and name): they are run for every property and their obligations filtered by tag, so that an
+	// obligation is never lost because the rule's static list does not name the property.
+	Wide bool
 	Run      func(c *Ctx) []Obligation
 }
 
@@ -90,7 +94,7 @@ func RunProperty(prog *Program, prop, tier string, seed int, verifDir string, st
 	ctx := &Ctx{Program: prog, Tier: tier, Prop: prop}
 	var rules []*Rule
 	for _, r := range Registry {
-		if !contains(r.Props, prop) {
+		if !contains(r.Props, prop) && !r.Wide {
 			continue
 		}
 		if r.Thorough && tier != "thorough" {
@@ -115,6 +119,14 @@ func RunProperty(prog *Program, prop, tier string, seed int, verifDir string, st
 			}
 			if o.Rule == "" {
 				o.Rule = r.Name
+			}
+			// an obligation tagged with a property its rule is not registered for would never be shown to that
+			// property's check: surface the inconsistency instead of losing the obligation
+			for _, p := range o.Props {
+				if !contains(r.Props, p) && !r.Wide && !orphanReported[r.Name+"/"+p] {
+					orphanReported[r.Name+"/"+p] = true
+					fmt.Fprintf(os.Stderr, "lvcheck: internal: rule %s tags obligations with %s but is not registered for it (first: %s)\n", r.Name, p, o.Key)
+				}
 			}
 			if !contains(o.Props, prop) {
 				continue
@@ -275,6 +287,8 @@ type ruleCacheEntry struct {
 }
 
 var ruleCache = map[*Program]map[string]ruleCacheEntry{}
+
+var orphanReported = map[string]bool{}
 
 func safeRun(r *Rule, ctx *Ctx) (obs []Obligation) {
 	if m := ruleCache[ctx.Program]; m != nil {
